@@ -413,10 +413,10 @@ class Bus (objects.DBusObject):
 
                 return client.NAME_ALREADY_OWNER
             else:
-                if not replace_existing:
-                    return client.NAME_IN_USE
-
-                if owner.busNames[name]:
+                if replace_existing and owner.busNames[name]:
+                    # the owner allowed it and the caller asked for it
+                    if caller in queue:
+                        queue.remove(caller)
                     del queue[0]
                     queue.insert(0, caller)
                     del owner.busNames[name]
@@ -424,14 +424,19 @@ class Bus (objects.DBusObject):
                     self.sendSignal(owner, 'NameLost', 's', name)
                     signalAcq(owner.uniqueName)
                     return client.NAME_ACQUIRED
-                else:
-                    if do_not_queue:
-                        return client.NAME_IN_USE
 
+                if do_not_queue:
+                    # declined to wait: also gives up an earlier place
+                    if caller in queue:
+                        queue.remove(caller)
+                        del caller.busNames[name]
+                    return client.NAME_IN_USE
+
+                if caller not in queue:
                     queue.append(caller)
-                    caller.busNames[name] = allow_replacement
+                caller.busNames[name] = allow_replacement
 
-                    return client.NAME_IN_QUEUE
+                return client.NAME_IN_QUEUE
 
     def dbus_ReleaseName(self, name, dbusCaller=None):
         caller = self.clients[dbusCaller]
